@@ -47,6 +47,9 @@ pub mod api;
 pub mod store;
 pub mod sync;
 
+#[cfg(feature = "verif-hooks")]
+pub mod verif;
+
 mod heads;
 mod keys;
 mod ranger;
